@@ -303,16 +303,12 @@ def make_close_case(fn_name, fa, ua, fd, ud, atol_how, rtol_how):
             # a unitless operand against a dimensionless unit of another scale (percent, ppm ...)
             check_verdicts(ctx, "verdict == SI oracle, unitless operand against a dimensionless unit of other scale", fn_name, vs,
                            margins(A, Dd, rel_d, 0.0, rtol))
-            check_verdicts(ctx, "verdict == SI oracle, unitless operand relabelled with the other operand's unit (as implemented)",
-                           fn_name, vs, margins(A, Dd, 1.0, 0.0, rtol))
         elif atol_dim == "bare":
             # documented: a bare atol is in the unit of `desired`; implemented: in the unit of `actual`
             doc = margins(A, Dd, rel_d, atol * rel_d, rtol)
             impl = margins(A, Dd, rel_d, atol, rtol)
             check_verdicts(ctx, "verdict == SI oracle, bare atol read in desired's unit", fn_name, vs, doc)
-            if npf:
-                # the numpy handlers still read it in a's unit (known finding K3); allclose_units was repaired (14b8216)
-                check_verdicts(ctx, "verdict == SI oracle, bare atol read in actual's unit (as implemented)", fn_name, vs, impl)
+            # (the as-implemented twin "read in actual's unit" was dropped when 14b8216 / a284d7d repaired the defect)
         else:
             mb = margins(A, Dd, rel_d, atol * ratio(atol_scale, sa), rtol)
             lab = "verdict == SI oracle, atol in its own unit"
